@@ -52,22 +52,53 @@ func verifErrID(err error) int64 {
 	return -99
 }
 
-func TestVerifC04(t *testing.T) {
+func verifCall(interceptor grpc.UnaryServerInterceptor, info *grpc.UnaryServerInfo, parent context.Context,
+	work func(ctx context.Context) (int64, int64)) (int64, int64) {
+	resp, err := interceptor(parent, "req", info, func(ctx context.Context, req any) (any, error) {
+		r, e := work(ctx)
+		var resp any
+		if r != 0 {
+			resp = r
+		}
+		if e != 0 {
+			return resp, fmt.Errorf("e%d", e)
+		}
+		return resp, nil
+	})
+	var r int64
+	switch v := resp.(type) {
+	case nil:
+	case int64:
+		r = v
+	default:
+		r = -99
+	}
+	return r, verifErrID(err)
+}
+
+func verifIO(t *testing.T, cases any) *bufio.Writer {
 	data, err := os.ReadFile(os.Getenv("VERIF_IN"))
 	if err != nil {
 		t.Skip("no VERIF_IN")
 	}
-	var cases []SlotCase
-	if err := json.Unmarshal(data, &cases); err != nil {
+	if err := json.Unmarshal(data, cases); err != nil {
 		t.Fatal(err)
 	}
 	f, err := os.Create(os.Getenv("VERIF_OUT"))
 	if err != nil {
 		t.Fatal(err)
 	}
-	defer f.Close()
 	w := bufio.NewWriter(f)
-	defer w.Flush()
+	t.Cleanup(func() {
+		w.Flush()
+		f.Close()
+	})
+	return w
+}
+
+func TestVerifC04(t *testing.T) {
+	var cases []SlotCase
+	w := verifIO(t, &cases)
 	for _, c := range cases {
 		var confs []MethodTimeoutConf
 		for _, mt := range c.Confs {
@@ -76,26 +107,23 @@ func TestVerifC04(t *testing.T) {
 		interceptor := UnaryTimeoutInterceptor(time.Duration(c.DurNs), confs...)
 		info := &grpc.UnaryServerInfo{FullMethod: verifMethod(c.Method)}
 		out := runSlot(c, func(parent context.Context, work func(ctx context.Context) (int64, int64)) (int64, int64) {
-			resp, err := interceptor(parent, "req", info, func(ctx context.Context, req any) (any, error) {
-				r, e := work(ctx)
-				var resp any
-				if r != 0 {
-					resp = r
-				}
-				if e != 0 {
-					return resp, fmt.Errorf("e%d", e)
-				}
-				return resp, nil
-			})
-			var r int64
-			switch v := resp.(type) {
-			case nil:
-			case int64:
-				r = v
-			default:
-				r = -99
-			}
-			return r, verifErrID(err)
+			return verifCall(interceptor, info, parent, work)
+		})
+		b, _ := json.Marshal(out)
+		w.Write(b)
+		w.WriteByte('\n')
+	}
+}
+
+// several calls through ONE interceptor instance
+func TestVerifC04Seq(t *testing.T) {
+	var cases []SlotSeqCase
+	w := verifIO(t, &cases)
+	for _, c := range cases {
+		interceptor := UnaryTimeoutInterceptor(time.Duration(c.DurNs))
+		out := runSlotSeq(c, func(i int, parent context.Context, work func(ctx context.Context) (int64, int64)) (int64, int64) {
+			info := &grpc.UnaryServerInfo{FullMethod: verifMethod(int64(i + 1))}
+			return verifCall(interceptor, info, parent, work)
 		})
 		b, _ := json.Marshal(out)
 		w.Write(b)
